@@ -1,11 +1,59 @@
-//! placeholder (scenario not built yet)
-use crate::session::Violation;
-use serde::{Deserialize, Serialize};
+//! Scenario `lsp` (C21): the language server's handlers and state, with the `select!`
+//! loop replaced by a driver that fires one ready arm per step - exactly the freedom
+//! `select!` has: a client message (real `dispatch_notification` / `dispatch_request`), a
+//! file-system batch (real `update_sources` + GC), or the debounce timer (real
+//! `validate_entire_schema` + `publish_new_diagnostics_and_clear_old_diagnostics`).
+//!
+//! Oracle: a freshly started server (new `CompilerState` over the same disk tree, the same
+//! open buffers applied through the real didOpen handler) must give the same answers and,
+//! at quiescent points, the same effective diagnostics.
 
-#[derive(Serialize, Deserialize, Clone, Debug)]
-pub struct LspCase {
-    pub steps: Vec<u8>,
+use crate::cx::{self, Profile, State};
+use crate::session::{self, Violation};
+use crate::world::{EdOp, World, DIRS, PATHS};
+use isograph_compiler::watch::SourceFileEvent;
+use isograph_compiler::{update_sources, verif_hooks};
+use isograph_lsp::verif_exports::{dispatch_notification, dispatch_request, publish_new_diagnostics_and_clear_old_diagnostics, LspState};
+use isograph_schema::validate_entire_schema;
+use serde::{Deserialize, Serialize};
+use serde_json::{json, Value};
+use simcore::Rng;
+use std::collections::{BTreeMap, BTreeSet};
+use std::panic::{catch_unwind, AssertUnwindSafe};
+
+#[derive(Serialize, Deserialize, Clone, Debug, PartialEq, Eq, Hash)]
+pub enum ReqKind {
+    SemanticTokens,
+    Formatting,
+    Hover,
+    Definition,
 }
+
+#[derive(Serialize, Deserialize, Clone, Debug, PartialEq, Eq, Hash)]
+pub enum LStep {
+    DidOpen(usize, usize),
+    DidChange(usize, usize),
+    DidClose(usize),
+    /// the editor changes the disk; the file-system batch is queued, not yet delivered
+    Disk(EdOp),
+    /// the file-system arm fires: the oldest queued batch is processed
+    DeliverFs,
+    /// the 60 s GC period elapses before the next file-system batch
+    Gc,
+    /// the debounce timer arm fires (only ready after a notification or batch re-armed it)
+    Timer,
+    Request(ReqKind, usize, u32),
+    /// every arm is drained; the oracle is evaluated
+    Settle,
+}
+
+#[derive(Serialize, Deserialize, Clone, Debug, PartialEq, Eq, Hash)]
+pub struct LspCase {
+    pub capacity: usize,
+    pub initial: Vec<(usize, usize)>,
+    pub steps: Vec<LStep>,
+}
+
 pub struct Outcome {
     pub violations: Vec<Violation>,
     pub counters: Vec<(String, u64)>,
@@ -13,9 +61,363 @@ pub struct Outcome {
     pub nontrivial: bool,
     pub sim_time_ms: u64,
 }
-pub fn generate(_seed: u64) -> LspCase {
-    LspCase { steps: vec![] }
+
+fn uri_of(w: &World, p: usize) -> String {
+    format!("file://{}", w.abs(PATHS[p % PATHS.len()].rel).display())
 }
-pub fn run(_case: &LspCase, _tag: u64) -> Outcome {
-    Outcome { violations: vec![], counters: vec![], log: vec![], nontrivial: false, sim_time_ms: 0 }
+
+fn notification(method: &str, params: Value) -> lsp_server::Notification {
+    lsp_server::Notification { method: method.to_string(), params }
+}
+
+fn did_open(w: &World, p: usize, text: &str) -> lsp_server::Notification {
+    notification("textDocument/didOpen", json!({"textDocument": {"uri": uri_of(w, p), "languageId": "typescriptreact", "version": 1, "text": text}}))
+}
+fn did_change(w: &World, p: usize, text: &str) -> lsp_server::Notification {
+    notification("textDocument/didChange", json!({"textDocument": {"uri": uri_of(w, p), "version": 2}, "contentChanges": [{"text": text}]}))
+}
+fn did_close(w: &World, p: usize) -> lsp_server::Notification {
+    notification("textDocument/didClose", json!({"textDocument": {"uri": uri_of(w, p)}}))
+}
+
+/// (line, character) of a seeded offset inside `text`, biased to the inside of iso literals.
+fn position_in(text: &str, seed: u32) -> (u32, u32) {
+    if text.is_empty() {
+        return (0, 0);
+    }
+    let bytes = text.as_bytes();
+    let candidates: Vec<usize> = {
+        let mut inside = false;
+        let mut v = Vec::new();
+        for (i, b) in bytes.iter().enumerate() {
+            if *b == b'`' {
+                inside = !inside;
+            } else if inside && (b.is_ascii_alphanumeric() || *b == b'_') {
+                v.push(i);
+            }
+        }
+        if v.is_empty() {
+            (0..bytes.len()).collect()
+        } else {
+            v
+        }
+    };
+    let off = candidates[seed as usize % candidates.len()];
+    let before = &text[..off];
+    let line = before.matches('\n').count() as u32;
+    let col = before.rsplit('\n').next().map(|s| s.chars().count()).unwrap_or(0) as u32;
+    (line, col)
+}
+
+fn request(kind: &ReqKind, uri: &str, pos: (u32, u32)) -> lsp_server::Request {
+    let td = json!({"uri": uri});
+    let position = json!({"line": pos.0, "character": pos.1});
+    let (method, params) = match kind {
+        ReqKind::SemanticTokens => ("textDocument/semanticTokens/full", json!({"textDocument": td})),
+        ReqKind::Formatting => ("textDocument/formatting", json!({"textDocument": td, "options": {"tabSize": 2, "insertSpaces": true}})),
+        ReqKind::Hover => ("textDocument/hover", json!({"textDocument": td, "position": position})),
+        ReqKind::Definition => ("textDocument/definition", json!({"textDocument": td, "position": position})),
+    };
+    lsp_server::Request { id: 1.into(), method: method.to_string(), params }
+}
+
+/// The response as comparable JSON; a panic inside the handler is its own outcome.
+fn ask(state: &LspState<Profile>, req: lsp_server::Request) -> Value {
+    match catch_unwind(AssertUnwindSafe(|| dispatch_request(req, state))) {
+        Ok(resp) => json!({"result": resp.result, "error": resp.error.map(|e| json!({"code": e.code, "message": e.message}))}),
+        Err(_) => json!({"panic": true}),
+    }
+}
+
+/// Effective diagnostics per URI after applying every publishDiagnostics (empty == absent).
+fn apply_published(rx: &crossbeam::channel::Receiver<lsp_server::Message>, map: &mut BTreeMap<String, Value>) {
+    while let Ok(msg) = rx.try_recv() {
+        if let lsp_server::Message::Notification(n) = msg {
+            if n.method == "textDocument/publishDiagnostics" {
+                let uri = n.params["uri"].as_str().unwrap_or("").to_string();
+                let diags = n.params["diagnostics"].clone();
+                if diags.as_array().map(|a| a.is_empty()).unwrap_or(true) {
+                    map.remove(&uri);
+                } else {
+                    map.insert(uri, diags);
+                }
+            }
+        }
+    }
+}
+
+struct FreshAnswers {
+    diagnostics: BTreeMap<String, Value>,
+}
+
+/// Builds a fresh server on the same disk tree and open buffers and lets `f` query it.
+fn with_fresh<R>(w: &World, open: &BTreeMap<usize, String>, f: impl FnOnce(&LspState<Profile>, &FreshAnswers) -> R) -> Option<R> {
+    let (config, cwd) = cx::config_for(w);
+    let state = State::new(config, cwd).ok()?;
+    let (tx, rx) = crossbeam::channel::unbounded();
+    let mut lsp = LspState::new(state, &tx);
+    for (p, text) in open {
+        let _ = dispatch_notification(did_open(w, *p, text), &mut lsp);
+    }
+    let diags = validate_entire_schema(&lsp.compiler_state.db).clone().err().unwrap_or_default();
+    #[allow(clippy::mutable_key_type)]
+    let _ = publish_new_diagnostics_and_clear_old_diagnostics(&lsp.compiler_state.db, &diags, &tx, BTreeSet::new());
+    let mut map = BTreeMap::new();
+    apply_published(&rx, &mut map);
+    Some(f(&lsp, &FreshAnswers { diagnostics: map }))
+}
+
+pub fn run(case: &LspCase, tag: u64) -> Outcome {
+    let w = World::create(tag);
+    cx::clear_hooks();
+    cx::install_sorted_enumeration();
+    pico::verif_hooks::set_capacity_override(std::num::NonZeroUsize::new(case.capacity.max(1)));
+    for d in [0usize, 1, 2, 3] {
+        let _ = std::fs::create_dir_all(w.abs(DIRS[d]));
+    }
+    for (p, s) in &case.initial {
+        w.apply(&EdOp::Write(*p, *s));
+    }
+    let mut out = Outcome { violations: vec![], counters: vec![], log: vec![], nontrivial: false, sim_time_ms: 0 };
+    let mut c: BTreeMap<String, u64> = BTreeMap::new();
+    let mut bump = |c: &mut BTreeMap<String, u64>, k: &str| *c.entry(k.to_string()).or_insert(0) += 1;
+    let (config, cwd) = cx::config_for(&w);
+    let Ok(state) = State::new(config, cwd) else {
+        w.destroy();
+        return out;
+    };
+    let (tx, rx) = crossbeam::channel::unbounded();
+    let mut lsp = LspState::new(state, &tx);
+    #[allow(clippy::mutable_key_type)]
+    let mut uris_with_diagnostics = BTreeSet::new();
+    let mut published: BTreeMap<String, Value> = BTreeMap::new();
+    let mut open: BTreeMap<usize, String> = BTreeMap::new();
+    let mut pending_fs: std::collections::VecDeque<Vec<SourceFileEvent>> = Default::default();
+    let mut timer_armed = true; // the server starts with a 100 ms timer
+    let mut diagnostics_computed_once = false;
+    let mut opened_after_first_diagnostics = false;
+    let mut buffer_differs_from_disk = false;
+    let mut gc_next = false;
+    let mut sim_ms = 0u64;
+
+    macro_rules! fire_timer {
+        () => {{
+            let diags = validate_entire_schema(&lsp.compiler_state.db).clone().err().unwrap_or_default();
+            uris_with_diagnostics = publish_new_diagnostics_and_clear_old_diagnostics(&lsp.compiler_state.db, &diags, &tx, std::mem::take(&mut uris_with_diagnostics));
+            apply_published(&rx, &mut published);
+            timer_armed = false;
+            diagnostics_computed_once = true;
+            sim_ms += 100;
+            bump(&mut c, "arm.timer");
+        }};
+    }
+    macro_rules! deliver_fs {
+        () => {{
+            if let Some(batch) = pending_fs.pop_front() {
+                if gc_next {
+                    verif_hooks::set_gc_due(true);
+                    gc_next = false;
+                    bump(&mut c, "fault.gc");
+                }
+                let _ = update_sources(&mut lsp.compiler_state.db, &batch);
+                lsp.compiler_state.run_garbage_collection();
+                timer_armed = true;
+                sim_ms += 100;
+                bump(&mut c, "arm.fs_batch");
+            }
+        }};
+    }
+
+    for (idx, step) in case.steps.iter().enumerate() {
+        out.log.push(idx as u8);
+        match step {
+            LStep::DidOpen(p, s) | LStep::DidChange(p, s) => {
+                let p = *p % PATHS.len();
+                let text = String::from_utf8_lossy(&World::content_for(p, *s)).to_string();
+                let n = if matches!(step, LStep::DidOpen(..)) || !open.contains_key(&p) { did_open(&w, p, &text) } else { did_change(&w, p, &text) };
+                let _ = dispatch_notification(n, &mut lsp);
+                if diagnostics_computed_once && !open.contains_key(&p) {
+                    opened_after_first_diagnostics = true;
+                }
+                if std::fs::read(w.abs(PATHS[p].rel)).ok().map(|d| d != text.as_bytes()).unwrap_or(true) {
+                    buffer_differs_from_disk = true;
+                }
+                open.insert(p, text);
+                timer_armed = true;
+                bump(&mut c, "arm.client_notification");
+            }
+            LStep::DidClose(p) => {
+                let p = *p % PATHS.len();
+                if open.remove(&p).is_some() {
+                    let _ = dispatch_notification(did_close(&w, p), &mut lsp);
+                    timer_armed = true;
+                    bump(&mut c, "arm.client_notification");
+                }
+            }
+            LStep::Disk(op) => {
+                if session::allowed_in_session(op) && w.apply(op) {
+                    let ev = session_event(&w, op);
+                    if !ev.is_empty() {
+                        pending_fs.push_back(ev);
+                    }
+                    bump(&mut c, "disk_edits");
+                }
+            }
+            LStep::DeliverFs => deliver_fs!(),
+            LStep::Gc => gc_next = true,
+            LStep::Timer => {
+                if timer_armed {
+                    fire_timer!();
+                }
+            }
+            LStep::Request(kind, p, seed) => {
+                if !pending_fs.is_empty() {
+                    // the server has legitimately not seen the disk change yet
+                    bump(&mut c, "requests_skipped_fs_batch_in_flight");
+                    continue;
+                }
+                // an LSP client only queries documents it has open: the index selects among them
+                if open.is_empty() {
+                    bump(&mut c, "requests_skipped_no_document_open");
+                    continue;
+                }
+                let p = *open.keys().nth(*p % open.len()).unwrap();
+                // A request about a buffer whose file is not on disk panics in any server
+                // ("Expected relative path to exist"): a robustness matter outside C21, noted in
+                // DESIGN.md; a tenth of them is still asked (and ends the history, see below).
+                if !w.abs(PATHS[p].rel).is_file() && *seed % 10 != 0 {
+                    bump(&mut c, "requests_skipped_buffer_without_file");
+                    continue;
+                }
+                let text = open.get(&p).cloned().unwrap_or_default();
+                let pos = position_in(&text, *seed);
+                let uri = uri_of(&w, p);
+                let got = ask(&lsp, request(kind, &uri, pos));
+                let want = with_fresh(&w, &open, |fresh, _| ask(fresh, request(kind, &uri, pos)));
+                bump(&mut c, "requests_compared");
+                out.log.extend_from_slice(&simcore::fnv1a(got.to_string().as_bytes()).to_le_bytes());
+                match want {
+                    None => bump(&mut c, "fresh_server_could_not_start"),
+                    Some(want) => {
+                        if got.get("panic").is_some() && want.get("panic").is_some() {
+                            // the handler panics on this input in any server: not a C21 matter.
+                            // The real server process would be gone now, so the history ends here.
+                            bump(&mut c, "requests_panicking_in_both");
+                            break;
+                        } else if got != want {
+                            let g = got.to_string();
+                            let wnt = want.to_string();
+                            out.violations.push(Violation {
+                                property: "C21",
+                                kind: "answer-differs-from-fresh-server",
+                                detail: format!("{kind:?} on {} at {pos:?}: server {} ; fresh server {}", PATHS[p].rel, &g[..g.len().min(300)], &wnt[..wnt.len().min(300)]),
+                                step: idx,
+                            });
+                        }
+                    }
+                }
+            }
+            LStep::Settle => {
+                while !pending_fs.is_empty() {
+                    deliver_fs!();
+                }
+                if timer_armed {
+                    fire_timer!();
+                }
+                let want = with_fresh(&w, &open, |_, fresh| fresh.diagnostics.clone());
+                bump(&mut c, "quiescent_points_checked");
+                out.log.extend_from_slice(&simcore::fnv1a(format!("{published:?}").as_bytes()).to_le_bytes());
+                if let Some(want) = want {
+                    if want != published {
+                        let only_server: Vec<&String> = published.keys().filter(|k| !want.contains_key(*k)).collect();
+                        let only_fresh: Vec<&String> = want.keys().filter(|k| !published.contains_key(*k)).collect();
+                        let differ: Vec<&String> = published.iter().filter(|(k, v)| want.get(*k).map(|x| x != *v).unwrap_or(false)).map(|(k, _)| k).collect();
+                        out.violations.push(Violation {
+                            property: "C21",
+                            kind: "diagnostics-differ-from-fresh-server",
+                            detail: format!("effective diagnostics differ: only on the running server {only_server:?}; only on a fresh server {only_fresh:?}; different {differ:?}"),
+                            step: idx,
+                        });
+                    }
+                } else {
+                    bump(&mut c, "fresh_server_could_not_start");
+                }
+            }
+        }
+        if !out.violations.is_empty() {
+            break;
+        }
+    }
+    if opened_after_first_diagnostics {
+        bump(&mut c, "probe.buffer_opened_after_first_diagnostics");
+    }
+    if buffer_differs_from_disk {
+        bump(&mut c, "probe.buffer_differs_from_disk");
+    }
+    out.nontrivial = opened_after_first_diagnostics || buffer_differs_from_disk;
+    out.sim_time_ms = sim_ms;
+    drop(lsp);
+    cx::clear_hooks();
+    let _ = std::env::set_current_dir("/");
+    w.destroy();
+    out.counters = c.into_iter().collect();
+    out
+}
+
+fn session_event(w: &World, op: &EdOp) -> Vec<SourceFileEvent> {
+    use isograph_compiler::watch::{ChangedFileKind, SourceEventKind};
+    match op {
+        EdOp::Write(p, _) => vec![(SourceEventKind::CreateOrModify(w.abs(PATHS[*p % PATHS.len()].rel)), ChangedFileKind::JavaScriptSourceFile)],
+        EdOp::Delete(p) => vec![(SourceEventKind::Remove(w.abs(PATHS[*p % PATHS.len()].rel)), ChangedFileKind::JavaScriptSourceFile)],
+        EdOp::WriteSchema(_) => vec![(SourceEventKind::CreateOrModify(w.abs("schema.graphql")), ChangedFileKind::Schema)],
+        EdOp::WriteExt(_) => vec![(SourceEventKind::CreateOrModify(w.abs("schema-ext.graphql")), ChangedFileKind::SchemaExtension)],
+        _ => vec![],
+    }
+}
+
+const SRC: [usize; 8] = [0, 1, 2, 4, 5, 6, 7, 15];
+
+pub fn generate(seed: u64) -> LspCase {
+    let mut rng = Rng::new(seed);
+    let capacity = *rng.pick(&[1usize, 2, 4, 16, 10_000]);
+    let mut initial = Vec::new();
+    for _ in 0..rng.range(1, 4) {
+        initial.push((*rng.pick(&SRC), *rng.pick(&[0usize, 2, 3, 4, 5, 6, 7, 12, 13, 11])));
+    }
+    let mut steps = Vec::new();
+    // half of the runs let diagnostics be computed before anything is opened
+    if rng.chance(1, 2) {
+        steps.push(LStep::Timer);
+    }
+    let n = rng.range(4, 20);
+    for _ in 0..n {
+        let p = *rng.pick(&SRC);
+        let step = match rng.weighted(&[5, 6, 2, 4, 3, 1, 3, 8, 3]) {
+            0 => LStep::DidOpen(p, session::gen_snippet(&mut rng)),
+            1 => LStep::DidChange(p, session::gen_snippet(&mut rng)),
+            2 => LStep::DidClose(p),
+            3 => LStep::Disk(match rng.below(6) {
+                0 => EdOp::Delete(p),
+                1 => EdOp::WriteSchema(*rng.pick(&[0usize, 0, 1, 2])),
+                _ => EdOp::Write(p, session::gen_snippet(&mut rng)),
+            }),
+            4 => LStep::DeliverFs,
+            5 => LStep::Gc,
+            6 => LStep::Timer,
+            7 => LStep::Request(
+                match rng.below(4) {
+                    0 => ReqKind::SemanticTokens,
+                    1 => ReqKind::Formatting,
+                    2 => ReqKind::Hover,
+                    _ => ReqKind::Definition,
+                },
+                p,
+                rng.below(10_000) as u32,
+            ),
+            _ => LStep::Settle,
+        };
+        steps.push(step);
+    }
+    steps.push(LStep::Settle);
+    LspCase { capacity, initial, steps }
 }
